@@ -118,6 +118,7 @@ func init() {
 		gen: func(rng *rand.Rand, tier string, n int, emit func(string)) {
 			emit("6 40 3")
 			emit("20 60 2")
+			emit("25 0 3") // no WithTimeout: the ping timeout defaults to the ping interval
 			for i := 0; i < n; i++ {
 				emit(fmt.Sprintf("%d %d %d", 4+rng.Intn(20), 30+rng.Intn(40), 1+rng.Intn(4)))
 			}
@@ -129,13 +130,20 @@ func init() {
 func execKAReconn(f []string) Result {
 	interval := time.Duration(atoi(f[0])) * time.Millisecond
 	timeout := time.Duration(atoi(f[1])) * time.Millisecond
+	defaultTimeout := timeout == 0
+	if defaultTimeout {
+		timeout = interval // reconnclient.go: "Default value is PingInterval"
+	}
 	healthyPings := atoi(f[2])
 	r := Result{Out: "", Tags: []string{"nontrivial"}}
 	sc := &scenario{broker: newRBroker("P"), dialCh: make(chan dialResult), cur: -1, msgConn: map[int]int{}, endAt: map[int]time.Time{}}
 	sc.cond = sync.NewCond(&sc.mu)
 	sc.answerPings = true
-	cli, err := mqtt.NewReconnectClient(&sDialer{sc: sc}, mqtt.WithReconnectWait(2*time.Millisecond, 8*time.Millisecond),
-		mqtt.WithPingInterval(interval), mqtt.WithTimeout(timeout))
+	ropts := []mqtt.ReconnectOption{mqtt.WithReconnectWait(2*time.Millisecond, 8*time.Millisecond), mqtt.WithPingInterval(interval)}
+	if !defaultTimeout {
+		ropts = append(ropts, mqtt.WithTimeout(timeout))
+	}
+	cli, err := mqtt.NewReconnectClient(&sDialer{sc: sc}, ropts...)
 	if err != nil {
 		return Result{Out: "", Props: []PropResult{viol("C13", "setup", "%v", err)}}
 	}
